@@ -8,7 +8,10 @@ correspondence (model vs implementation, canonical observables):
     property and nesting level,
   * parse-time loading of an import tree over a generated virtual file system (rule tree + fetcher call log),
     cssutils.resolveImports (resulting rule tree / exception class + fetcher call log), also on sheets whose @import
-    rules were edited through the DOM after parsing (media re-targeted, MediaList edited in place, href assigned).
+    rules were edited through the DOM after parsing (media re-targeted, MediaList edited in place, href assigned),
+  * the SPECIFICATION of flattening with kept imports (`flatSpec`: groups in cascade order, kept @imports hoisted;
+    proved equal to the transcription on every tree without @namespace rules) evaluated by the driver
+    (`flatspec`, `flatspectree`) against the same implementation results.
 oracle (implementation only, independent of the model):
   * getUrls = independent enumeration of the generated abstract sheet; replaceUrls = map, log = getUrls, identity no-op,
     nothing else touched, also through serialise+parse,
@@ -89,7 +92,8 @@ class C19(Check):
     trusted_base = (
         'hand-written model lean/CssVerif/Model/Urls.lean of cssutils/__init__.py:183-415 (getUrls, replaceUrls, '
         'Replacer, resolveImports), CSSImportRule._setHref, CSSStyleSheet.add and CSSMediaRule.insertRule, tied to '
-        'the code by the differential correspondence of this run',
+        'the code by the differential correspondence of this run; the specification flatSpec (same file, Part 4) is '
+        'tied to that model by theorem (resolveImports_is_flatSpec) and to the implementation by the flatspec stream',
         'CPython 3.12 posixpath.split/join/normpath and urllib.parse.urlsplit/urlunsplit/urlparse/urljoin/quote are '
         'transcribed into the same model and compared with CPython on generated strings each run; urljoin is the '
         'resolving oracle of the property',
